@@ -27,7 +27,7 @@
 
   Core Lean only. Main definitions for reuse (C02): `frame`, `frames`, `readBytes`,
   `readAll`, `repairLoop`, `Disk`, `Writer`, `openWriter`, `Writer.write/sync/shift/crash/close`,
-  `recover`, `Op`, `Sys`, `stepOp`, `run`.
+  `recover`, `Op`, `Sys`, `stepOp`, `run`, and the bookkeeping `Ghost`, `stepGhost`, `runG`.
 -/
 import Goloop.Base.Bytes
 namespace Goloop.C03
@@ -267,7 +267,16 @@ def run (crc : Bytes → UInt32) (w : Sys) : List Op → Sys
 structure Ghost where
   log : List Bytes := []
   nsynced : Nat := 0
+  /-- number of records removed so far by the retention of housekeeping rounds -/
+  retired : Nat := 0
   deriving Repr
+
+/-- what a housekeeping round starts from: shift if the tail file is over FileLimit, else the
+    time based sync -/
+def hkBase (w : Writer) : Writer :=
+  if w.tail.length > w.cfg.fileLimit then w.shift
+  else if w.dirty && w.cfg.syncDue then w.sync
+  else w
 
 /-- the durable records -/
 def Ghost.durable (g : Ghost) : List Bytes := g.log.take g.nsynced
@@ -276,21 +285,25 @@ def stepGhost (crc : Bytes → UInt32) (w : Sys) (g : Ghost) : Op → Ghost
   | .write p => { g with log := g.log ++ [p] }
   | .sync => { g with nsynced := g.log.length }
   | .shift => { g with nsynced := g.log.length }
-  | .housekeep => g
-  | .crashRecover k => let r := (stepOp crc w (.crashRecover k)).2; { log := r, nsynced := r.length }
-  | .restart => let r := (stepOp crc w .restart).2; { log := r, nsynced := r.length }
+  | .housekeep =>
+    -- the records held by the removed head segments leave the log (retention)
+    let b := hkBase w
+    let j := w.housekeep.head - b.head
+    let removed := (readAll crc (b.older.take j).flatten).1.length
+    let n1 := if w.tail.length > w.cfg.fileLimit ∨ (w.dirty && w.cfg.syncDue) = true then g.log.length else g.nsynced
+    { log := g.log.drop removed, nsynced := n1 - removed, retired := g.retired + removed }
+  | .crashRecover k => let r := (stepOp crc w (.crashRecover k)).2; { g with log := r, nsynced := r.length }
+  | .restart => let r := (stepOp crc w .restart).2; { g with log := r, nsynced := r.length }
 
 /-- system and bookkeeping run side by side -/
 def runG (crc : Bytes → UInt32) (w : Sys) (g : Ghost) : List Op → Sys × Ghost
   | [] => (w, g)
   | op :: ops => runG crc (stepOp crc w op).1 (stepGhost crc w g op) ops
 
-/-- histories covered by the record-level theorems: no housekeeping round (see `retire_scope`
-    for what housekeeping does to the segment files) and payloads shorter than 2^32-8 bytes
+/-- histories covered by the record-level theorems: payloads shorter than 2^32-8 bytes
     (the length field is a uint32). -/
 def Op.plain : Op → Prop
   | .write p => p.length + 8 < 2 ^ 32
-  | .housekeep => False
   | _ => True
 
 /-! ## original (unrepaired) behaviour, for the witness theorems only -/
